@@ -28,8 +28,20 @@ def calibrate_c18(seeds):
                 print("calibration run has real violations; fix those first:", r.violations[0].get("key"))
                 return 1
         print("C18 seed %d: %d rows present, %d failing so far" % (seed, len(present), len(failing)))
-    ok = sorted(present - failing)
     os.makedirs(os.path.join(HERE, "calib"), exist_ok=True)
+    masks = {}
+    for r in res:  # the range cases use a fixed seed: the last run's shard 0 has them
+        if r.summary:
+            for k, v in r.summary.get("lists", {}).items():
+                if k.startswith("range_mask|") and v:
+                    _, row, t = k.split("|")
+                    masks[(row, t)] = v[0]
+    with open(os.path.join(HERE, "calib", "c18_range_cases.txt"), "w") as f:
+        for (row, t), m in sorted(masks.items()):
+            f.write("%s\t%s\t%s\n" % (row, t, m))
+    marked = sum(bin(int(m, 16)).count("1") for m in masks.values())
+    print("C18: %d (row, numeric type) pairs, %d of %d range cases hold with margin on this tree" % (len(masks), marked, 256 * len(masks)))
+    ok = sorted(present - failing)
     open(os.path.join(HERE, "calib", "c18_float_wide_rows.txt"), "w").write("\n".join(ok) + "\n")
     print("C18: %d of %d rows hold over the wide float range; %d do not (intermediate products leave the float range)" % (len(ok), len(present), len(failing)))
     return 0
